@@ -555,6 +555,55 @@ def run(ctx):
                           {'op': 'getutxos partial cache', 'cached_by': how_cached, 'observed': [(g[0][:8], g[1], g[2]) for g in got] if isinstance(got, list) else got,
                            'expected': [(g[0][:8], g[1], g[2]) for g in want]})
 
+    # ---- getbalance of several addresses of which one is served from the cache: what is stored afterwards for the cached address is
+    # still ITS balance (a later getbalance of that address alone, answered from the cache, is unchanged) ------------------------------
+    for rep_i in range(2 if not T else 5):
+        k_a, k_b = Key(9000 + rep_i), Key(9100 + rep_i)
+        addr_a, addr_b = k_a.address(encoding='bech32', script_type='p2wpkh'), k_b.address(encoding='bech32', script_type='p2wpkh')
+        txs_a = []
+        for j in range(rng.choice([1, 2])):
+            kj = Key(9200 + 10 * rep_i + j)
+            tj = Transaction(network='bitcoin', witness_type='segwit')
+            tj.add_input(bytes([0x70 + rep_i, j + 1]) * 16, j, keys=[kj], script_type='sig_pubkey', value=90000, witness_type='segwit')
+            tj.add_output(30000 + 1000 * j, address=addr_a)
+            tj.sign([kj])
+            txs_a.append(tj.raw_hex())
+
+        def txs_of_a(_i, txs_a=txs_a):
+            out = []
+            for n_, rawj in enumerate(txs_a):
+                tt = Transaction.parse_hex(rawj)
+                tt.block_height, tt.confirmations, tt.status = 700000 + n_, 100000 - n_, 'confirmed'
+                tt.date = datetime(2021, 1, 1, tzinfo=timezone.utc)
+                for inp in tt.inputs:
+                    inp.value = 90000
+                tt.update_totals()
+                out.append(tt)
+            return out
+
+        srv = new_service(2)
+        bal_b = 5000 + rep_i
+        for i in range(2):
+            script[i] = {'blockcount': ('ok', 800000), 'gettransactions': ('ok', txs_of_a),
+                         'getbalance': ('okfn', lambda addresslist, bal_b=bal_b, addr_b=addr_b: bal_b if addr_b in addresslist else 0)}
+        ctx.evals += 1
+        ctx.count('getbalance-with-one-cached-address')
+        try:
+            srv.gettransactions(addr_a)
+            alone_before = srv.getbalance([addr_a])
+            both = srv.getbalance(rng.choice([[addr_a, addr_b], [addr_b, addr_a]]))
+            alone_after = srv.getbalance([addr_a])
+            b_alone = srv.getbalance([addr_b])
+        except ServiceError:
+            continue
+        except Exception as e:
+            ctx.violation('getbalance with a partly cached address list raised', {'op': 'getbalance partly cached', 'error': repr(e)[:120]})
+            continue
+        if both != alone_before + bal_b or alone_after != alone_before or b_alone != bal_b:
+            ctx.violation('getbalance of a list with one cached address changes what is answered for the addresses afterwards',
+                          {'op': 'getbalance partly cached', 'A_alone_before': alone_before, 'A_and_B': both, 'B_from_provider': bal_b,
+                           'A_alone_after': alone_after, 'B_alone_after': b_alone})
+
     # ---- a failed query must not poison later ones: all providers down (error limit reached), then healthy again ---------------
     for qname, (call, answer, who) in queries.items():
         for maxe in (1, 2, 4):
